@@ -24,6 +24,7 @@ type Field struct {
 	Label   string `json:"label,omitempty"` // "", "repeated", "map"
 	KeyKind string `json:"key,omitempty"`   // for maps
 	Ref     string `json:"ref,omitempty"`   // type reference as written in the file
+	JSON    string `json:"json,omitempty"`  // explicit json_name option
 }
 
 type EnumVal struct {
@@ -102,13 +103,17 @@ func renderMsg(b *strings.Builder, ind string, m Msg) {
 		if f.Kind == "message" || f.Kind == "enum" {
 			ty = f.Ref
 		}
+		opt := ""
+		if f.JSON != "" {
+			opt = fmt.Sprintf(" [json_name = %q]", f.JSON)
+		}
 		switch f.Label {
 		case "repeated":
-			fmt.Fprintf(b, "%s  repeated %s %s = %d;\n", ind, ty, f.Name, f.Num)
+			fmt.Fprintf(b, "%s  repeated %s %s = %d%s;\n", ind, ty, f.Name, f.Num, opt)
 		case "map":
-			fmt.Fprintf(b, "%s  map<%s, %s> %s = %d;\n", ind, f.KeyKind, ty, f.Name, f.Num)
+			fmt.Fprintf(b, "%s  map<%s, %s> %s = %d%s;\n", ind, f.KeyKind, ty, f.Name, f.Num, opt)
 		default:
-			fmt.Fprintf(b, "%s  %s %s = %d;\n", ind, ty, f.Name, f.Num)
+			fmt.Fprintf(b, "%s  %s %s = %d%s;\n", ind, ty, f.Name, f.Num, opt)
 		}
 	}
 	fmt.Fprintf(b, "%s}\n", ind)
